@@ -2,6 +2,9 @@ module verifharness
 
 go 1.14
 
-require github.com/hnakamur/whispertool v0.0.0
+require (
+	github.com/go-graphite/go-whisper v0.0.0-20230221134257-6774e38a461b
+	github.com/hnakamur/whispertool v0.0.0
+)
 
 replace github.com/hnakamur/whispertool => /repo
